@@ -73,7 +73,7 @@ def inject(chunks, pos, fault, rng):
 class Check(DiffCheck):
     id = 'C10'
     coq_dirs = ['Base', 'C10']
-    coq_targets = ['C10/C10_Proofs.vo']
+    coq_targets = ['C10/C10_ProofsLoop.vo', 'C10/C10_ProofsEngine.vo']
     properties_v = 'C10/C10_Properties.v'
     extract_v = 'C10/C10_Extract.v'
     runner_ml = 'ocaml/C10_run.ml'
@@ -592,6 +592,9 @@ class Check(DiffCheck):
             if call == 'D=0':
                 for b in (1, 2, 4):
                     if A(1) & b: reg.pop((A(0), b), None)
+                if A(1) & 32768:        # rm_interest with ONE_SHOT in the mask strips the one-shot mode of what remains on the fd
+                    for key in list(reg):
+                        if key[0] == A(0): reg[key] = (reg[key][0], False)
                 if not any(fd == A(0) for (fd, b) in reg): self._rep.pop(A(0), None)
         else:
             mm = re.match(r'V=(-?\d+)\[(.*)\]$', call)
